@@ -170,6 +170,22 @@ theorem collected_keys_distinct (s : Schema) (frags : List Frag) (vars : Vars) (
   rw [← h2] at hu
   simpa [Assoc.Uniq, Assoc.keys, cview, cviewCF, κa, List.map_map, Function.comp_def] using hu
 
+/-- **A repeated collection pass is absorbed.** gqlgen's `collectFields` appends a child's selections to
+the freshly created slot a second time, so one level down the same selections are collected twice. This
+is why that is harmless for the response: collecting a selection list again, from any visited set that
+includes what the first pass visited, enters no fragment body, leaves the visited set unchanged, and
+yields only occurrences (response key, field, sub-selection) that the first pass already yielded, in
+order — so it creates no new response key and only repeats sub-selections already present. (Lifting
+this to "the plan is unchanged for every position of the repetition" is not proved; the driver compares
+the plan of the code's algorithm with the Spec plan on every generated case.) -/
+theorem second_collection_pass_is_absorbed (frags : List Frag) (vars : Vars) (applies : String → Bool)
+    (fuel : Nat) (l : List Sel) (dfr : Option String) (vis : List String) (os : List Spec.Occ)
+    (v' : List String) (h : Spec.occurrences frags vars applies fuel l dfr vis = some (os, v'))
+    (vis₂ : List String) (dfr₂ : Option String) (hsub : ∀ x, x ∈ v' → x ∈ vis₂) :
+    ∃ os₂, Spec.occurrences frags vars applies fuel l dfr₂ vis₂ = some (os₂, vis₂) ∧
+      (oview os₂).Sublist (oview os) :=
+  occ_second_pass frags vars applies fuel l dfr vis os v' h vis₂ dfr₂ hsub
+
 /-! ## non-vacuity and the known finding -/
 
 /-- **F01 (known finding), as a theorem about the code's algorithm.** `T implements A & B` with `A`, `B`
